@@ -188,9 +188,10 @@ fn split_time_zone(s: &str) -> Result<(&str, Option<FixedOffset>), String> {
 
 /// Returns true if the word looks like an abbreviated name of a time zone, e.g. CEST or JST.
 fn is_time_zone_name(word: &str) -> bool {
-    const NOT_ZONES: [&str; 21] = [
+    const NOT_ZONES: [&str; 26] = [
         "JAN", "FEB", "MAR", "APR", "MAY", "JUN", "JUL", "AUG", "SEP", "SEPT", "OCT", "NOV", "DEC",
-        "MON", "TUE", "TUES", "WED", "THU", "THUR", "FRI", "SAT",
+        "MARCH", "APRIL", "JUNE", "JULY", "MON", "TUE", "TUES", "WED", "THU", "THUR", "THURS",
+        "FRI", "SAT",
     ];
     (3..=5).contains(&word.len())
         && word.chars().all(|c| c.is_ascii_uppercase())
